@@ -488,7 +488,73 @@ def same_parameter_histories(ctx):
     ctx.ob("C08_search_same_parameters", bad == 0, "search", f"{bad} failing histories" if bad else "")
 
 
+def adjacent_pairs_suite(ctx):
+    """circuits whose decomposed sequence holds ADJACENT gates of one class on the same qubit set:
+    role-swapped pairs that do not cancel (CNOT(a,b)·CNOT(b,a), TOFFOLI(a,b,c)·TOFFOLI(a,c,b), the
+    three-CNOT SWAP), pairs that do (CZ·CZ, SWAP·SWAP with swapped arguments, X·X, H·H), and
+    decomposable gates whose templates start / end with such gates next to them.  `Circuit.decompose()`
+    against the circuit's own unitary, and its entries against the concatenation of the per-gate
+    decompositions (the model's `decomposeQueue` inserts / drops nothing)."""
+    from qibo import Circuit, gates
+    from props import C08
+
+    PRE = _pre()
+    rng = ctx.rng
+    bad = 0
+    mism = []
+    n = 4
+    a, b, c, d = rng.sample(range(n), 4)
+    recipes = [
+        [f"gates.CNOT({a},{b})", f"gates.CNOT({b},{a})"],
+        [f"gates.CNOT({a},{b})", f"gates.CNOT({b},{a})", f"gates.CNOT({a},{b})"],
+        [f"gates.CNOT({b},{a})", f"gates.CNOT({a},{b})", f"gates.H({c})"],
+        [f"gates.TOFFOLI({a},{b},{c})", f"gates.TOFFOLI({a},{c},{b})"],
+        [f"gates.TOFFOLI({a},{b},{c})", f"gates.TOFFOLI({c},{b},{a})", f"gates.TOFFOLI({b},{a},{c})"],
+        [f"gates.CZ({a},{b})", f"gates.CZ({b},{a})"],
+        [f"gates.SWAP({a},{b})", f"gates.SWAP({b},{a})"],
+        [f"gates.X({a})", f"gates.X({a})", f"gates.H({b})", f"gates.H({b})", f"gates.Y({c})", f"gates.Z({c})"],
+        [f"gates.CNOT({a},{b})", f"gates.FSWAP({a},{b})", f"gates.CNOT({b},{a})"],
+        [f"gates.CNOT({b},{a})", f"gates.RBS({a},{b},0.7)", f"gates.CNOT({b},{a})"],
+        [f"gates.CNOT({a},{b})", f"gates.CRY({b},{a},1.3)", f"gates.CNOT({a},{b})"],
+        [f"gates.CNOT({b},{a})", f"gates.RZX({a},{b},-0.9)", f"gates.CNOT({b},{a})"],
+        [f"gates.H({b})", f"gates.CZ({a},{b})", f"gates.CCZ({c},{a},{b})", f"gates.H({b})"],
+        [f"gates.CNOT({a},{b})", f"gates.ECR({b},{a})", f"gates.CNOT({b},{a})", f"gates.iSWAP({a},{b})"],
+        [f"gates.TOFFOLI({a},{c},{b})", f"gates.CCZ({a},{b},{c})", f"gates.TOFFOLI({a},{b},{c})"],
+        [f"gates.CNOT({b},{a})", f"gates.GIVENS({a},{b},0.4)", f"gates.CNOT({b},{a})", f"gates.CNOT({a},{b})"],
+        [f"gates.X({d}).controlled_by({a},{b})", f"gates.TOFFOLI({a},{d},{b})", f"gates.X({c}).controlled_by({a})", f"gates.CNOT({c},{a})"],
+    ]
+    for r in recipes:
+        build = f"c = Circuit({n})\n" + "".join(f"c.add({x})\n" for x in r)
+        code = (PRE + build + f"U = prod(c.queue, {n})\nd = c.decompose()\n"
+                f"assert same_up_to_phase(prod(d.queue, {n}), U), 'Circuit.decompose() of a circuit with adjacent gates on the same qubits is not the circuit up to a global phase'\n")
+        ctx.case(("adjacent", tuple(r)))
+        try:
+            loc = {}
+            exec("from qibo import Circuit, gates\n" + build, loc)
+            cc = loc["c"]
+            U = C08.product(cc.queue, n)
+            dq = cc.decompose().queue
+            ok = qgates.phase_equal(C08.product(dq, n), U)
+            cat = [x for g in cc.queue for x in C08.descr_list(g.decompose())]
+            same = cat == C08.descr_list(dq)
+        except Exception as e:
+            bad += 1
+            ctx.fail("circuit_decompose:adjacent-pairs:raises", f"Circuit.decompose() of [{', '.join(r)}] raises {type(e).__name__}: {e}", code,
+                     observed=f"{type(e).__name__}: {e}", broken=["C08_search_circuit_adjacent"])
+            continue
+        if not same:
+            mism.append(f"[{', '.join(r)}]: {len(dq)} entries, the concatenation of the gates' decompositions has {len(cat)}")
+        if not ok:
+            bad += 1
+            ctx.fail("circuit_decompose:adjacent-pairs", f"Circuit.decompose() of [{', '.join(r)}] is not the circuit's operator up to a global phase "
+                     f"({len(dq)} entries returned, the gates' decompositions have {len(cat)})", code,
+                     broken=["C08_search_circuit_adjacent", "C08_corr_circuit_adjacent", "C08_search_circuit", "C08_corr_circuit"])
+    ctx.ob("C08_corr_circuit_adjacent", not mism, "correspondence", (mism + [""])[0])
+    ctx.ob("C08_search_circuit_adjacent", bad == 0, "search", f"{bad} failing circuits" if bad else "")
+
+
 def run_suites(ctx):
+    adjacent_pairs_suite(ctx)
     dispatch_suite(ctx)
     same_parameter_histories(ctx)
     phase_table(ctx)
